@@ -1,2 +1,136 @@
-From GixV.C03 Require Import Model Spec.
-Example placeholder : True. Proof. exact I. Qed.
+(* C03 — Tree entry ordering and name lookup match git.  Statements only; proofs are in Proofs*.v.
+   Vocabulary:  entry_cmp = <Entry as Ord>::cmp = <EntryRef as Ord>::cmp (Model.v);
+   git_cmp = git's base_name_compare (Spec.v);  ekey e = name ++ "/" for directories, name otherwise;
+   sf / nf = the name has no '/' / no NUL;  git_le a b = git_cmp a b <> Gt;
+   Sorted git_le l = every adjacent pair is in git's order (what git's fsck calls a sorted tree). *)
+From Coq Require Import Permutation Sorted.
+From GixV.Base Require Import Bytes Outcome.
+From GixV.C03 Require Import Model Spec ProofsCmp ProofsSort ProofsSearch ProofsWrite ProofsMain ProofsExamples.
+
+(* ---- the comparison ---------------------------------------------------------------------------- *)
+
+Theorem cmp_is_git : forall a b,
+  nul_free (e_name a) -> nul_free (e_name b) -> entry_cmp a b = git_cmp a b.
+Proof. exact entry_cmp_is_git. Qed.
+
+Theorem cmp_is_key_order : forall a b,
+  slash_free (e_name a) -> slash_free (e_name b) -> entry_cmp a b = bytes_cmp (ekey a) (ekey b).
+Proof. exact entry_cmp_key. Qed.
+
+Theorem cmp_eq_iff_same_name_and_kind : forall a b,
+  slash_free (e_name a) -> slash_free (e_name b) ->
+  (entry_cmp a b = Eq <-> e_name a = e_name b /\ is_tree (e_mode a) = is_tree (e_mode b)).
+Proof. exact entry_cmp_eq_iff. Qed.
+
+Theorem cmp_antisymmetric : forall a b,
+  slash_free (e_name a) -> slash_free (e_name b) -> entry_cmp b a = CompOpp (entry_cmp a b).
+Proof. exact entry_cmp_antisym. Qed.
+
+Theorem cmp_transitive : forall a b c,
+  slash_free (e_name a) -> slash_free (e_name b) -> slash_free (e_name c) ->
+  entry_cmp a b = Lt -> entry_cmp b c = Lt -> entry_cmp a c = Lt.
+Proof. exact entry_cmp_lt_trans. Qed.
+
+Theorem cmp_entry_with_name_is_cmp : forall a name tree oid,
+  cmp_entry_with_name a name tree = entry_cmp a (mkEntry (if tree then MODE_TREE else MODE_BLOB) name oid).
+Proof. exact cmp_entry_with_name_is_entry_cmp. Qed.
+
+(* ---- sorting and writing ------------------------------------------------------------------------ *)
+
+Theorem sort_is_permutation : forall es, Permutation (sort_entries es) es.
+Proof. exact sort_perm. Qed.
+
+Theorem sort_yields_git_order : forall es,
+  Forall sf es -> Forall nf es -> Sorted git_le (sort_entries es).
+Proof. exact sort_git_sorted. Qed.
+
+Theorem sort_is_the_only_git_order : forall es l,
+  Forall sf es -> Forall nf es -> NoDup (map ekey es) ->
+  Permutation l es -> Sorted git_le l -> l = sort_entries es.
+Proof. exact sort_is_the_git_order. Qed.
+
+Theorem sort_ignores_input_order : forall es1 es2,
+  Forall sf es1 -> NoDup (map ekey es1) -> Permutation es1 es2 -> sort_entries es1 = sort_entries es2.
+Proof. exact sort_order_independent. Qed.
+
+Theorem written_tree_is_gits_tree : forall es l,
+  Forall sf es -> Forall nf es -> Forall (fun e => u16 (e_mode e)) es -> NoDup (map ekey es) ->
+  Permutation l es -> Sorted git_le l ->
+  exists b, write_to (sort_entries es) = Ok b /\ write_entries l = Ok b.
+Proof. exact tree_bytes_match_git. Qed.
+
+Theorem write_after_sort_never_panics : forall es,
+  Forall sf es -> Forall nf es -> Forall (fun e => u16 (e_mode e)) es ->
+  exists b, write_to (sort_entries es) = Ok b /\ write_entries (sort_entries es) = Ok b.
+Proof. exact write_sorted_ok. Qed.
+
+(* ---- lookup ------------------------------------------------------------------------------------- *)
+
+Theorem binary_search_never_panics_or_hangs : forall (A : Type) (f : A -> comparison) (l : list A),
+  exists r, binary_search_by f l = Ok r.
+Proof. exact @bsearch_total. Qed.
+
+Theorem binary_search_hit_is_equal : forall (A : Type) (f : A -> comparison) (l : list A) i,
+  binary_search_by f l = Ok (inl i) -> exists e, nth_error l i = Some e /\ f e = Eq.
+Proof. exact @bsearch_sound. Qed.
+
+Theorem bisect_never_panics : forall es name d, exists r, bisect_entry es name d = Ok r.
+Proof. exact bisect_total. Qed.
+
+Theorem bisect_finds_exactly_existing : forall es name d,
+  Forall sf es -> Forall nf es -> slash_free name -> Sorted git_le es ->
+  (exists r, bisect_entry es name d = Ok r) /\
+  ((exists e, bisect_entry es name d = Ok (Some e)) <->
+   (exists e, In e es /\ e_name e = name /\ is_tree (e_mode e) = d)) /\
+  (forall e, bisect_entry es name d = Ok (Some e) ->
+             In e es /\ e_name e = name /\ is_tree (e_mode e) = d).
+Proof. exact bisect_finds_iff. Qed.
+
+Theorem bisect_iff_linear : forall es name d,
+  Forall sf es -> Forall nf es -> slash_free name -> Sorted git_le es -> NoDup (map ekey es) ->
+  bisect_entry es name d = Ok (linear_find es name d).
+Proof. exact bisect_is_linear_find_git. Qed.
+
+Theorem bisect_in_own_sorted_tree : forall es name d,
+  Forall sf es -> slash_free name -> NoDup (map ekey es) ->
+  bisect_entry (sort_entries es) name d = Ok (linear_find es name d).
+Proof. exact bisect_after_sort. Qed.
+
+(* ---- non-vacuity: a tree with prefix-related names on both sides of '/' meets every hypothesis ---- *)
+
+Example hyp_slash_free : Forall sf ex_sorted /\ Forall sf ex_shuffled.
+Proof. exact (conj ex_sf ex_sf'). Qed.
+Example hyp_nul_free : Forall nf ex_sorted /\ Forall nf ex_shuffled.
+Proof. exact (conj ex_nf ex_nf'). Qed.
+Example hyp_modes : Forall (fun e => u16 (e_mode e)) ex_shuffled.
+Proof. exact ex_u16. Qed.
+Example hyp_unique_keys : NoDup (map ekey ex_shuffled).
+Proof. exact ex_nodup. Qed.
+Example hyp_permutation : Permutation ex_sorted ex_shuffled.
+Proof. exact ex_perm. Qed.
+Example hyp_git_sorted : Sorted git_le ex_sorted.
+Proof. exact ex_git_sorted. Qed.
+Example sort_example : sort_entries ex_shuffled = ex_sorted.
+Proof. exact ex_sort. Qed.
+Example bisect_example_dir :
+  bisect_entry ex_sorted (bs "a") true = Ok (Some (mkEntry 16384 (bs "a") oid1)).
+Proof. exact ex_bisect_dir. Qed.
+Example bisect_example_file :
+  bisect_entry ex_sorted (bs "a") false = Ok (Some (mkEntry 33188 (bs "a") oid1)).
+Proof. exact ex_bisect_file. Qed.
+Example bisect_example_absent : bisect_entry ex_sorted (bs "a0") true = Ok None.
+Proof. exact ex_bisect_absent. Qed.
+Example slash_rule_example :
+  entry_cmp (mkEntry 16384 (bs "a") oid1) (mkEntry 33188 (bs "a.") oid1) = Gt /\
+  entry_cmp (mkEntry 16384 (bs "a") oid1) (mkEntry 33188 (bs "a0") oid1) = Lt /\
+  entry_cmp (mkEntry 33188 (bs "a") oid1) (mkEntry 33188 (bs "a.") oid1) = Lt.
+Proof. exact ex_slash_rule. Qed.
+(* the domain restrictions are needed *)
+Example slash_in_name_breaks_the_order :
+  entry_cmp (mkEntry 16384 (bs "a") oid1) (mkEntry 33188 (bs "a/b") oid1) = Eq /\
+  git_cmp (mkEntry 16384 (bs "a") oid1) (mkEntry 33188 (bs "a/b") oid1) = Eq.
+Proof. exact ex_slash_in_name_not_an_order. Qed.
+Example nul_in_name_differs_from_git :
+  entry_cmp (mkEntry 33188 (bs "a") oid1) (mkEntry 33188 [x61; x00] oid1) = Lt /\
+  git_cmp (mkEntry 33188 (bs "a") oid1) (mkEntry 33188 [x61; x00] oid1) = Eq.
+Proof. exact ex_nul_in_name_differs. Qed.
